@@ -182,6 +182,21 @@ def c02_c(ctx: Ctx):
             else:
                 out.append(ctx.viol(R, fi, st, "init() can return after saving without re-loading and validating the file: a pre-existing invalid or "
                                     "concurrently written file is accepted", witness=cfg.describe_path(w)))
+        # (ii') ... nor fail: once save() came back normally (written, or kept because somebody else's file is there) the verdict is what the re-read says
+        raises = {n.id for n in cfg.stmt_nodes() if isinstance(n.ast, ast.Raise)}
+        stn = st if not isinstance(st, ast.If) else st
+        for sid in cfg.node_ids_for(st):
+            starts = [sid]
+            w = cfg.path(sid, raises, blocked=set(load_ids), kinds="n", from_successors=not isinstance(st, ast.If))
+            if isinstance(st, ast.If):
+                # the save call is the test of an `if`: both outcomes continue normally
+                w = cfg.path(sid, raises, blocked=set(load_ids), kinds="n", from_successors=True)
+            if w is not None:
+                out.append(ctx.viol(R, fi, cfg.nodes[w[-1]].ast, "init() can raise after save() returned normally without re-reading the file: when another process wrote a valid state point "
+                                    "between the failed load and the save-if-absent, this process keeps that file and then fails with the stale error although the job is initialised",
+                                    witness=cfg.describe_path(w), construct=INIT + "|raise-after-save"))
+            else:
+                out.append(ctx.ok(R, fi, st, "after save() returned normally init() cannot raise before the file was re-read", construct=INIT + "|raise-after-save"))
     # (iii) registration receives load's result and follows a load
     env = ctx.env(fi)
     regs = [n for n in body_nodes(fi) if isinstance(n, ast.Call) and isinstance(n.func, ast.Attribute) and n.func.attr == "_register"]
